@@ -229,11 +229,23 @@ def contrast_wrap_is_positional(ctx, rule: str):
 def ast_args_guarded(ctx, rule: str):
     P = ctx.project
     n = 0
-    for q in ("formulaic.parser.utils.__get_tokens_for_gap",):
-        f = P.functions.get(q)
-        if f is None:
-            raise AnalysisError(f"{rule}: {q} not found")
-        for s_ in ast.walk(f.node):
+    # the helper that walks down to the tokens bordering a gap (today a private function of parser.utils): found by what it does,
+    # wherever in the module it lives and whatever it is called
+    top = P.functions.get("formulaic.parser.utils.exc_for_missing_operator")
+    if top is None:
+        raise AnalysisError(f"{rule}: formulaic.parser.utils.exc_for_missing_operator not found")
+    nodes = set(param_names(top.node)[:2])   # the two AST nodes (or tokens) bordering the gap
+    fs = [top]
+    for c in walk_no_nested(top.node):
+        if isinstance(c, ast.Call) and any(isinstance(a, ast.Name) and a.id in nodes for a in list(c.args) + [k.value for k in c.keywords]):
+            q = P.resolve_in(top, c.func)
+            g = P.functions.get(q) if q else None
+            if g is None and isinstance(c.func, ast.Name):
+                g = P.functions.get("formulaic.parser.utils." + c.func.id)
+            if g is not None and g not in fs:
+                fs.append(g)
+    for f in fs:
+        for s_ in walk_no_nested(f.node):
             if isinstance(s_, ast.Subscript) and isinstance(s_.value, ast.Attribute) and s_.value.attr == "args" and isinstance(s_.slice, (ast.Constant, ast.UnaryOp)):
                 n += 1
                 ctx.look()
@@ -243,7 +255,7 @@ def ast_args_guarded(ctx, rule: str):
                 ctx.check(ok, rule, "an operator node without arguments (the `.` wildcard) is handled when locating a missing-operator error", f.module.line(s_),
                           ctx.construct(f, text=f"guard {norm(s_)}"),
                           f"`{norm(s_)}` is evaluated without checking that `{base}` is non-empty: for `a .` the IndexError escapes instead of a FormulaSyntaxError")
-    ctx.floor(rule, n, 2, "argument subscripts in __get_tokens_for_gap")
+    ctx.floor(rule, n, 2, "argument subscripts of AST nodes in parser.utils")
 
 
 # ------------------------------------------------------------------ sanitize_variable_name(s)
